@@ -90,6 +90,14 @@ impl Formatter {
     }
 
     pub fn format(&mut self, src: Source) -> Result<FormattedCode, FormatterError> {
+        // `format_module` builds its comment and newline maps from the trimmed source text. Parse
+        // the same trimmed text, so that the spans of the AST and the positions in those maps agree
+        // also when the file starts with whitespace.
+        let src = if src.text.starts_with(char::is_whitespace) {
+            Source::new(src.text.trim())
+        } else {
+            src
+        };
         let annotated_module = parse_file(src, self.experimental)?;
         self.format_module(&annotated_module)
     }
